@@ -10,8 +10,11 @@ EXTENDS Sequences
 ProdKind == [plit |-> "int", pstr |-> "str", pvar |-> "map", pnot |-> "bool", pisdef |-> "bool", pisnot |-> "bool", pin |-> "bool", pnotin |-> "bool",
              peq |-> "bool", plt |-> "bool", pand |-> "bool", psub |-> "int", pattr |-> "int", pidx |-> "int", padd |-> "int", pcat |-> "str",
              pfilt |-> "str", pcall |-> "arr", parr |-> "arr", ptern |-> "int", pcomp |-> "arr", pslice |-> "arr", ptrue |-> "bool", pneg |-> "int",
-             plen |-> "int", pmaplit |-> "map", psubstr |-> "str", pcomponent |-> "str"]
-ConsAccepts == [cadd |-> {"int"}, cneg |-> {"int"}, cupper |-> {"str"}, cabs |-> {"int"}, cfor |-> {"str", "arr", "map"}, clt |-> {"int"},
+             plen |-> "int", pmaplit |-> "map", psubstr |-> "str", pcomponent |-> "str",
+             \* the kinds no consumer of this table takes, or only one does: none, undefined (through ?.), a float, bytes
+             pnone |-> "none", pundefopt |-> "undef", pfloat |-> "float", pbytes |-> "bytes"]
+ConsAccepts == [cadd |-> {"int", "float"}, cneg |-> {"int", "float"}, cupper |-> {"str"}, cabs |-> {"int", "float"}, cfor |-> {"str", "arr", "map", "bytes"},
+                clt |-> {"int", "float"},
                 cspreadm |-> {"map"}, cspreada |-> {"arr"}, creplace |-> {"str"}, cdiv0 |-> {}, crange |-> {"int"}, cisdiv |-> {"int"}]
 Fails(pn, cn) == ProdKind[pn] \notin ConsAccepts[cn]
 =============================================================================
